@@ -198,6 +198,17 @@ func (u *Unit) enterBlock(st *State, fr *Frame, b, pred *ssa.BasicBlock) {
 		return
 	}
 	st.Trace = append(st.Trace, fmt.Sprintf("%s#%d", fr.Fn.Name(), b.Index))
+	if len(st.ExitWeak) > 0 {
+		var keep []exitWeak
+		for _, ew := range st.ExitWeak {
+			if ew.fn == fr.Fn && !ew.blocks[b] {
+				st.weaken(ew.why)
+			} else {
+				keep = append(keep, ew)
+			}
+		}
+		st.ExitWeak = keep
+	}
 	loops := u.loopsOf(fr.Fn)
 	if li, ok := loops[b]; ok {
 		if u.refute {
